@@ -357,6 +357,96 @@ func runC02(r *vk.Run) {
 			c.Sample("select", map[string]any{"query": query, "mode": mode, "containers": len(inv), "opened": got})
 		}
 	})
+	// end to end: the built plugin binary against a fake daemon on a unix socket
+	r.Phase("e2e", r.N(25, 400), func(c *vk.Case) {
+		rng := c.Rng
+		inv := genInventory(rng, 8)
+		for i := range inv {
+			inv[i].Name = fmt.Sprintf("/n%d%s", i, strings.TrimPrefix(inv[i].Name, "/")) // unique names so that output lines identify their origin
+		}
+		ms := genSelector(rng, inv)
+		want, ok := expectedSelection(inv, ms)
+		if !ok {
+			c.Count("excluded_collision", 1)
+			return
+		}
+		if want == nil {
+			want = []string{}
+		}
+		d, err := startFakeDaemon(inv, false)
+		if err != nil {
+			c.R.Inconclusive("fake daemon: " + err.Error())
+			return
+		}
+		defer d.Close()
+		start := int64(1700000000) + rng.I64n(50)
+		end := int64(1700000200) + rng.I64n(50)
+		query := renderSelector(ms)
+		pr, err := runPlugin(d, 60*time.Second, query, "--start", fmt.Sprint(start), "--end", fmt.Sprint(end), "--color=false", "-t=false")
+		c.Eval(1)
+		if err != nil {
+			c.R.Inconclusive("cannot run plugin binary: " + err.Error())
+			return
+		}
+		detail := map[string]any{"inventory": inv, "query": query, "want_ids": want, "stdout": string(pr.Stdout), "stderr": string(pr.Stderr), "exit": pr.Exit, "requests": d.requests()}
+		if pr.TimedOut || pr.Exit != 0 {
+			c.Fail("", fmt.Sprintf("plugin failed on %s: exit=%d timeout=%v stderr=%s", query, pr.Exit, pr.TimedOut, trunc(string(pr.Stderr), 300)), detail)
+			return
+		}
+		var got []string
+		for _, rq := range d.requests() {
+			got = append(got, rq.ID)
+			if rq.Since != fmt.Sprint(start) || rq.Until != fmt.Sprint(end) {
+				c.Fail("", fmt.Sprintf("daemon was asked since=%s until=%s for --start %d --end %d", rq.Since, rq.Until, start, end), detail)
+				return
+			}
+		}
+		sort.Strings(got)
+		if got == nil {
+			got = []string{}
+		}
+		if fmt.Sprint(got) != fmt.Sprint(want) {
+			c.Fail("", fmt.Sprintf("e2e: selector %s made the plugin read logs of %v, expected %v", query, got, want), detail)
+			return
+		}
+		// every printed line "<container> <message>" must come from that container
+		owner := map[string]string{}
+		for _, cs := range inv {
+			for _, f := range cs.Frames {
+				owner[f.Body] = strings.TrimPrefix(cs.Name, "/")
+			}
+		}
+		lines := 0
+		for _, ln := range strings.Split(strings.TrimSuffix(string(pr.Stdout), "\n"), "\n") {
+			if ln == "" {
+				continue
+			}
+			lines++
+			i := strings.LastIndex(ln, " ")
+			if i < 0 || owner[ln[i+1:]] != ln[:i] {
+				c.Fail("", fmt.Sprintf("e2e: output line %q does not pair a message with the container that produced it", ln), detail)
+				return
+			}
+		}
+		wantLines := 0
+		for _, cs := range inv {
+			for _, id := range want {
+				if id == cs.ID {
+					wantLines += len(cs.Frames)
+				}
+			}
+		}
+		if lines != wantLines {
+			c.Fail("", fmt.Sprintf("e2e: %d lines printed, selected containers wrote %d", lines, wantLines), detail)
+			return
+		}
+		c.Count("e2e_runs", 1)
+		c.Count("e2e_lines_traced", lines)
+		if len(want) > 0 && len(want) < len(inv) {
+			c.Nontrivial("e2e" + query + fmt.Sprint(c.Idx))
+		}
+	})
+	r.Require("e2e_runs", 15)
 	r.Require("partial_selections", 500)
 	r.Require("absent_label_matchers", 300)
 	r.Require("since_until_pairs", 2000)
